@@ -26,13 +26,14 @@ type pairCall struct {
 }
 
 type pairCtx struct {
-	mode   string // "A" or "B"
-	es     *EquivSpec
-	s      val
-	cA, cB string
-	calls  map[string]*pairCall
-	pname  string // receiver parameter name in the equiv expressions
-	light  bool   // use only frames and determinism of callees (no requires/ensures), and only the byte-dependent preconditions
+	mode        string // "A" or "B"
+	es          *EquivSpec
+	s           val
+	cA, cB      string
+	calls       map[string]*pairCall
+	pname       string // receiver parameter name in the equiv expressions
+	forceInline map[*ssa.Function]bool
+	light       bool // use only frames and determinism of callees (no requires/ensures), and only the byte-dependent preconditions
 }
 
 func (vc *FnVC) equivTerms(st *state, pc *pairCtx) []val {
@@ -309,6 +310,8 @@ type pairJob struct {
 	fn   *ssa.Function
 	es   *EquivSpec
 	a, b string
+	fnB  *ssa.Function
+	cs   *CrossSpec
 }
 
 func (e *Engine) pairJobs(tag string, fnRe interface{ MatchString(string) bool }) (jobs []pairJob, skipped map[string]string) {
@@ -320,10 +323,10 @@ func (e *Engine) pairJobs(tag string, fnRe interface{ MatchString(string) bool }
 	sort.Strings(keys)
 	for _, k := range keys {
 		es := e.db.Equivs[k]
-		if tag != "" && !hasTag(es.Tags, tag) {
-			continue
-		}
 		for _, f := range e.pairFuncs(es) {
+			if tag != "" && !hasTag(es.Tags, tag) {
+				break
+			}
 			key := e.keyOf(f)
 			if fnRe != nil && !fnRe.MatchString(key) {
 				continue
@@ -333,8 +336,30 @@ func (e *Engine) pairJobs(tag string, fnRe interface{ MatchString(string) bool }
 				continue
 			}
 			for _, p := range es.Pairs {
-				jobs = append(jobs, pairJob{f, es, p[0], p[1]})
+				jobs = append(jobs, pairJob{fn: f, es: es, a: p[0], b: p[1]})
 			}
+		}
+		for _, cs := range es.Cross {
+			if tag != "" && !hasTag(cs.Tags, tag) {
+				continue
+			}
+			var fa, fb *ssa.Function
+			for _, f := range e.pairFuncs(es) {
+				switch e.keyOf(f) {
+				case cs.A:
+					fa = f
+				case cs.B:
+					fb = f
+				}
+			}
+			if fa == nil || fb == nil {
+				e.specError("equiv like: %s or %s is not a function of type %s", cs.A, cs.B, es.Type)
+				continue
+			}
+			if fnRe != nil && !fnRe.MatchString(cs.A) {
+				continue
+			}
+			jobs = append(jobs, pairJob{fn: fa, es: es, fnB: fb, cs: cs})
 		}
 	}
 	return
@@ -349,6 +374,11 @@ func (e *Engine) verifyPairs(jobs []pairJob, dir string, perMs int, solvers []st
 			sem <- struct{}{}
 			defer func() { <-sem; done <- i }()
 			j := jobs[i]
+			if j.cs != nil {
+				vc := e.BuildCrossVC(j.fn, j.fnB, j.es, j.cs)
+				results[i] = e.Solve(vc, dir, perMs, solvers, agree)
+				return
+			}
 			// light VCs first (frames and determinism only); the whole contracts only if something is left undecided
 			vc := e.BuildPairVC(j.fn, j.es, j.a, j.b, true)
 			results[i] = e.Solve(vc, dir, perMs, solvers[:1], false)
@@ -512,4 +542,139 @@ func TestReplay(t *testing.T) {
 	src = strings.ReplaceAll(src, "BYTEA", a)
 	src = strings.ReplaceAll(src, "BYTEB", b)
 	return src
+}
+
+// BuildCrossVC: for every byte c satisfying cs.Cond, fnA(s, c) from a state with s.step == fnA and fnB(s, c) from the
+// same state with s.step == fnB end in the same scanner state and agree on error / no error. Calls of fnB inside fnA are
+// executed in place, so that the two runs meet at the same call instructions.
+func (e *Engine) BuildCrossVC(fnA, fnB *ssa.Function, es *EquivSpec, cs *CrossSpec) (vc *FnVC) {
+	vc = e.newVC(fnA)
+	vc.key = e.keyOf(fnA) + "~like~" + fnB.Name()
+	defer func() {
+		if r := recover(); r != nil {
+			if ee, ok := r.(evalErr); ok {
+				e.specError("%s: %s", vc.key, string(ee))
+				vc.unsupported("contract error: %s", string(ee))
+				return
+			}
+			vc.unsupported("generator panic: %v", r)
+		}
+	}()
+	S := vc.sorts
+	spA := vc.spec
+	spB, _ := e.specFor(fnB)
+	if spA == nil || spB == nil || fnA.Blocks == nil || fnB.Blocks == nil {
+		vc.unsupported("no contract or no body")
+		return vc
+	}
+	vc.curTags = cs.Tags
+	cname := "c"
+	if len(es.Params) > 1 {
+		cname = es.Params[1]
+	}
+	pc := &pairCtx{es: es, calls: map[string]*pairCall{}, pname: es.Params[0], light: true, forceInline: map[*ssa.Function]bool{fnB: true}}
+	vc.pair = pc
+	st := &state{reach: "true", regs: map[*ssa.Alloc]string{}, heap: map[string]string{}, ep: vc.newEpoch()}
+	st.alloc = vc.declare("alloc0", "Int")
+	st.ep.alloc = "alloc0"
+	vc.emit("(assert (> alloc0 0))")
+	recv := fnA.Params[0]
+	sname := vc.declare(q("p:"+recv.Name()), S.SortOf(recv.Type()))
+	vc.assume("true", fmt.Sprintf("(and (> %s 0) (<= %s alloc0))", sname, sname))
+	pc.s = val{t: sname, typ: recv.Type()}
+	cterm := vc.declare(q("p:"+cname), "Int")
+	vc.assume("true", fmt.Sprintf("(and (<= 0 %s) (<= %s 255))", cterm, cterm))
+	pc.cA, pc.cB = cterm, cterm
+	stT := recv.Type().Underlying().(*types.Pointer).Elem()
+	si := S.StructOf(stT)
+	stepHeap, _ := vc.fieldHeap(stT, fidxOf(si, "step"))
+	mkFrame := func(fn *ssa.Function, tag string, sp *FuncSpec) *frame {
+		fr := newFrame(fn, 0, tag)
+		fr.spec = sp
+		fr.params = map[string]val{}
+		for i, p := range fn.Params {
+			v := pc.s
+			if i > 0 {
+				v = val{t: cterm, typ: p.Type()}
+			}
+			fr.vals[p] = v
+			fr.params[p.Name()] = v
+			if i < len(es.Params) {
+				fr.params[es.Params[i]] = v
+			}
+		}
+		fr.params["self"] = val{t: vc.fnID(fn), typ: fn.Type(), fn: fn}
+		return fr
+	}
+	frA, frB := mkFrame(fnA, "A", spA), mkFrame(fnB, "B", spB)
+	stA := st.clone()
+	vc.hset(stA, stepHeap, fmt.Sprintf("(store %s %s %s)", vc.hget(stA, stepHeap), sname, vc.fnID(fnA)))
+	stB := st.clone()
+	vc.hset(stB, stepHeap, fmt.Sprintf("(store %s %s %s)", vc.hget(stB, stepHeap), sname, vc.fnID(fnB)))
+	vc.top = frA
+	// the byte-dependent preconditions and the condition of the lemma
+	for k, fr := range []*frame{frA, frB} {
+		s0 := []*state{stA, stB}[k]
+		vc.old = s0
+		for _, c := range fr.spec.Clauses {
+			if c.Kind != "requires" {
+				continue
+			}
+			mentions := false
+			walkExpr(c.E, func(x Expr) {
+				if id, ok := x.(*EIdent); ok && id.Name == cname {
+					mentions = true
+				}
+			})
+			if mentions {
+				vc.assume("true", vc.evalBool(fr, s0, s0, c.E, fr.params))
+			}
+		}
+	}
+	vc.assume("true", vc.evalBool(frA, stA, stA, cs.Cond, frA.params))
+	vc.emit(";;SMOKE-BEGIN")
+	vc.emit("(echo \"@smoke\")")
+	vc.emit("(check-sat)")
+	vc.emit(";;SMOKE-END")
+	vc.noOblige = true
+	run := func(fr *frame, from *state, mode string) (*state, val) {
+		pc.mode = mode
+		vc.top = fr
+		vc.old = from.clone()
+		vc.exec(fr, from)
+		if len(fr.rets) == 0 {
+			return nil, val{}
+		}
+		var eds []edge
+		for _, r := range fr.rets {
+			eds = append(eds, edge{cond: r.cond, st: r.st})
+		}
+		fin := vc.mergeEdges(eds, "ret"+mode)
+		var term string
+		for k := len(fr.rets) - 1; k >= 0; k-- {
+			rv := fr.rets[k].res[0].t
+			if term == "" {
+				term = rv
+			} else if rv != term {
+				term = fmt.Sprintf("(ite %s %s %s)", fr.rets[k].cond, rv, term)
+			}
+		}
+		return fin, val{t: vc.define("ret"+mode, "Int", term+"                                        "), typ: fr.fn.Signature.Results().At(0).Type()}
+	}
+	finA, retA := run(frA, stA, "A")
+	finB, retB := run(frB, stB, "B")
+	vc.noOblige = false
+	if finA == nil || finB == nil {
+		vc.note("function never returns normally")
+		return vc
+	}
+	guard := fmt.Sprintf("(and %s %s)", finA.reach, finB.reach)
+	vc.oblige("like", "error-or-not", guard, fmt.Sprintf("(= (= %s 0) (= %s 0))", retA.t, retB.t), cs.Tags, "")
+	ta := vc.equivTerms(finA, pc)
+	tb := vc.equivTerms(finB, pc)
+	okBoth := fmt.Sprintf("(and %s (= %s 0) (= %s 0))", guard, retA.t, retB.t)
+	for i := range ta {
+		vc.oblige("like", es.Srcs[i], okBoth, vc.eqVals(ta[i], tb[i]), cs.Tags, "")
+	}
+	return vc
 }
